@@ -208,13 +208,13 @@ func (frame *Frame) Pack() []byte {
 			if packet[3]&0x20 != 0 {
 				// has Adaptation
 
-				base := int(4 + packet[4]) // TS Header + Adaptation
+				base := int(5 + packet[4]) // TS Header + adaptation_field_length + Adaptation
 				if wpos > base {
 					// 比如有PES Header
 
 					copy(packet[base+stuffSize:], packet[base:wpos])
 				}
-				wpos = base + stuffSize
+				wpos += stuffSize
 
 				packet[4] += uint8(stuffSize) // adaptation_field_length
 				for i := 0; i < stuffSize; i++ {
